@@ -201,9 +201,16 @@ def numeric_literal_programs():
                 ["const_f", lit(fl)],
                 ["clip", fn("clip", x, lit(min(n, 0) - 1), lit(3))],
             ]
+            c_, cf = {"k": "c", "n": "cn"}, {"k": "c", "n": "cf"}
             steps = [{"in": "T0", "out": "T1", "verb": "mutate", "kw": kw},
-                     {"in": "T0", "out": "T2", "verb": "filter", "preds": [fn("gt", fn("neg", x), lit(n))]}]
-            yield {"tables": [tbl], "steps": steps, "probes": ["T1", "T2"], "meta": {"literal": [n, fl]}}
+                     {"in": "T0", "out": "T2", "verb": "filter", "preds": [fn("gt", fn("neg", x), lit(n))]},
+                     # the same literals as constant COLUMNS of an earlier verb (they are inlined into later expressions)
+                     {"in": "T0", "out": "T3", "verb": "mutate", "kw": [["cn", lit(n)], ["cf", lit(fl)], ["cs", lit("a'b")], ["cb", lit(True)]]},
+                     {"in": "T3", "out": "T4", "verb": "mutate", "kw": [["neg_c", fn("neg", c_)], ["neg_neg_c", fn("neg", fn("neg", c_))], ["x_minus_c", fn("sub", x, c_)],
+                                                                         ["c_minus_x", fn("sub", c_, x)], ["neg_cf", fn("neg", cf)], ["x_times_negc", fn("mul", x, fn("neg", c_))],
+                                                                         ["cs_cat", fn("add", {"k": "c", "n": "cs"}, lit("--x"))], ["not_cb", fn("invert", {"k": "c", "n": "cb"})]]},
+                     {"in": "T3", "out": "T5", "verb": "filter", "preds": [fn("gt", x, fn("neg", c_))]}]
+            yield {"tables": [tbl], "steps": steps, "probes": ["T1", "T2", "T4", "T5"], "meta": {"literal": [n, fl]}}
 
 
 def comment_problems(sql):
